@@ -15,7 +15,16 @@ fn fmt_of(s: &Sexp) -> Option<SerializationFormat> {
 pub fn op_gds(args: &[Sexp]) -> String {
     let (fmt, lib) = match (args.get(0).and_then(fmt_of), args.get(1).and_then(crate::gdsio::p_lib)) { (Some(f), Some(l)) => (f, l), _ => return "bad-op".into() };
     let s = match fmt.to_string(&lib) { Ok(s) => s, Err(_) => return "err".into() };
-    match fmt.from_str::<gds21::GdsLibrary>(&s) { Ok(l2) => format!("ok {}", crate::gdsio::lib_s(&l2)), Err(_) => "err".into() }
+    let l2 = match fmt.from_str::<gds21::GdsLibrary>(&s) { Ok(l2) => l2, Err(_) => return "err".into() };
+    // the file helpers too: save over an EXISTING, longer file (a library is re-saved after an
+    // edit that made it smaller), then open; the result must be what from_str gave
+    let dir = std::env::temp_dir().join(format!("l21h-c18s-{}", std::process::id()));
+    let _ = std::fs::create_dir_all(&dir);
+    let f = dir.join("lib.markup");
+    let _ = std::fs::write(&f, "x".repeat(s.len() + 4096));
+    let r = match fmt.save(&lib, &f) { Ok(()) => fmt.open::<gds21::GdsLibrary>(&f).ok(), Err(_) => None };
+    let _ = std::fs::remove_dir_all(&dir);
+    match r { Some(l3) if l3 == l2 => format!("ok {}", crate::gdsio::lib_s(&l2)), _ => "err-file".into() }
 }
 pub fn op_gdsbytes(args: &[Sexp]) -> String {
     let (fmtname, lib) = match (args.get(0).and_then(|a| a.atom()), args.get(1).and_then(crate::gdsio::p_lib)) { (Some(f), Some(l)) => (f.to_string(), l), _ => return "bad-op".into() };
@@ -25,8 +34,14 @@ pub fn op_gdsbytes(args: &[Sexp]) -> String {
     if lib.save(&g1).is_err() { return "err".into(); }
     let p = |x: &std::path::PathBuf| x.to_string_lossy().to_string();
     use layout21converters::gds_serialization::*;
-    if to_markup(&ToMarkupOptions { gds: p(&g1), fmt: fmtname.clone(), out: p(&mk), verbose: false }).is_err() { return "err".into(); }
-    if from_markup(&FromMarkupOptions { gds: p(&g2), fmt: fmtname, inp: p(&mk), verbose: false }).is_err() { return "err".into(); }
+    // both output files already exist and are longer than what will be written; every other case
+    // runs the converters in verbose mode (the mode must not change what is written)
+    let big = std::fs::metadata(&g1).map(|m| m.len() as usize).unwrap_or(0) * 40 + 65536;
+    let _ = std::fs::write(&mk, "x".repeat(big));
+    let _ = std::fs::write(&g2, vec![0x55u8; big]);
+    let verbose = lib.structs.len() % 2 == 1;
+    if to_markup(&ToMarkupOptions { gds: p(&g1), fmt: fmtname.clone(), out: p(&mk), verbose }).is_err() { return "err".into(); }
+    if from_markup(&FromMarkupOptions { gds: p(&g2), fmt: fmtname, inp: p(&mk), verbose }).is_err() { return "err".into(); }
     let same = std::fs::read(&g1).ok() == std::fs::read(&g2).ok();
     let _ = std::fs::remove_dir_all(&dir);
     format!("ok {}", of_bool(same))
@@ -90,7 +105,7 @@ pub fn oracle(line: &str) -> String {
     match p[0].atom().unwrap_or("") {
         "serde.gds" => {
             let want = format!("ok {}", p[2]);
-            if res == want { "pass".into() } else if res == "err" || res == "panic" { format!("fail {} copy could not be written or read back ({})", p[1], res) } else {
+            if res == want { "pass".into() } else if res == "err" || res == "panic" { format!("fail {} copy could not be written or read back ({})", p[1], res) } else if res == "err-file" { format!("fail {} copy saved over an existing file does not open to the saved library", p[1]) } else {
                 let i = res.bytes().zip(want.bytes()).position(|(a, b)| a != b).unwrap_or(0);
                 format!("fail {} copy differs at char {}: …{}… vs …{}…", p[1], i, &res[i.saturating_sub(25)..res.len().min(i + 30)], &want[i.saturating_sub(25)..want.len().min(i + 30)])
             }
